@@ -555,6 +555,32 @@ pub fn run(root: &str, outdir: &str) -> i32 {
     writeln!(p, "\n/-- `loop` / `while` expressions (iteration not bounded by a collection): (file, fn, kind). -/").unwrap();
     writeln!(p, "def openLoops : List (String × String × String) := [{}]",
         out.loops.iter().map(|(a, b, c)| format!("({}, {}, {})", lean_str(a), lean_str(b), lean_str(c))).collect::<Vec<_>>().join(", ")).unwrap();
+    // `debug_assert!`s whose argument does something: compiled out when the proc-macro is built without debug assertions
+    // (cargo's release profile), so the macro would behave differently there
+    let effects: Vec<String> = out
+        .sites
+        .iter()
+        .filter(|(_, _, shape, _)| shape == "debug_assert")
+        .filter(|(_, _, _, snippet)| {
+            let t: String = snippet.split_whitespace().collect::<Vec<_>>().join(" ");
+            let calls = [". insert (", ". push (", ". push_str (", ". pop (", ". remove (", ". extend (", ". entry (", ". take (", ". replace (",
+                         ". retain (", ". clear (", ". append (", ". truncate (", ". drain (", ". next (", ". set (", ". swap (", ". get_or_insert",
+                         ". insert_with", ". fetch_add (", ". store (", "& mut "];
+            let assigns = {
+                // `=` that is not part of `==`, `!=`, `<=`, `>=`, `=>`
+                let b = t.as_bytes();
+                (0..b.len()).any(|i| b[i] == b'=' && !(i > 0 && matches!(b[i - 1], b'=' | b'!' | b'<' | b'>'))
+                    && !(i + 1 < b.len() && matches!(b[i + 1], b'=' | b'>'))
+                    && !(i > 1 && b[i - 1] == b' ' && matches!(b[i - 2], b'=' | b'!' | b'<' | b'>'))
+                    && !(i + 2 < b.len() && b[i + 1] == b' ' && matches!(b[i + 2], b'=' | b'>')))
+            };
+            calls.iter().any(|c| t.contains(c)) || assigns
+        })
+        .map(|(file, f, _, snippet)| format!("({}, {}, {})", lean_str(file), lean_str(f), lean_str(&snippet.chars().take(120).collect::<String>())))
+        .collect();
+    writeln!(p, "\n/-- `debug_assert!`s whose argument mutates something (file, fn, argument): they vanish in a build without debug assertions -/").unwrap();
+    writeln!(p, "def debugAssertEffects : List (String × String × String) := [{}]", effects.join(", ")).unwrap();
+    writeln!(p, "def debugAssertCount : Nat := {}", out.sites.iter().filter(|(_, _, shape, _)| shape == "debug_assert").count()).unwrap();
     writeln!(p, "\nend Educe.Generated").unwrap();
     std::fs::write(Path::new(outdir).join("PanicSites.lean"), p).unwrap();
 
